@@ -325,4 +325,29 @@ pub fn run(ctx: &mut Ctx) {
             }
         }
     }
+    // blocks that try to WRITE what belongs to the surrounding program — a variable, the byte order, the position in the
+    // input, the input itself — are refused, and refused means nothing was written: always part of the run, evaluated and
+    // compiled
+    for attack in ["#( 5 ! sv #)", "#( sv 1 + ! sv #)", "#( big #)", "#( little 1 #)", "#( 1 ! big? #)", "#( 0 seek 1 #)", "#( 16 ! offset #)", "#( |05| open-bitstr 1 #)", "#( close-bitstr 1 #)", "#( | | ! input #)",
+        "#( u8 #)", "#( 8 bits #)", "#( |07| emit 1 #)", "1 #( 5 ! sv #) 2", ": w #( 5 ! sv #) ;", "#( : setter 5 ! sv ; setter #)", "#( 1 #( 5 ! sv #) #)"] {
+        for outer in ["1 2 3 var sv", "little |01 02 03 04| open-bitstr u8 drop 7 var sv", "big |01 02 03 04| open-bitstr 3 var sv"] {
+            for compile in [false, true] {
+                let mut x = fresh();
+                apply(&mut x, &Op::Eval(outer.to_string()));
+                let view = |x: &Xstate| { let mut p = x.clone(); let r = crate::guarded(|| p.eval("sv big? offset input remain 258 u16!")); format!("{:?} {}", r.map(|r| r.is_ok()), canon::stack(&p).iter().map(canon::cell).collect::<Vec<_>>().join(" ")) };
+                let before = (view(&x), outcome_sig(&mut x, &[]));
+                let r = apply(&mut x, &if compile { Op::Compile(attack.to_string()) } else { Op::Eval(attack.to_string()) });
+                if r == "ok" {
+                    // (a block that only reads what it may read, or a definition that holds the block: nothing has run that could write)
+                    ctx.tag("sealed-writes:accepted");
+                    let after = view(&x);
+                    if !attack.starts_with(": w") { ctx.check(before.0 == after, || format!("C11 sealed `{}` then {} `{}` (accepted)", outer, if compile { "compile" } else { "eval" }, attack), || before.0.clone(), || after.clone()); }
+                    continue;
+                }
+                let after = (view(&x), outcome_sig(&mut x, &[]));
+                ctx.check(before == after, || format!("C11 sealed `{}` then {} `{}` ({})", outer, if compile { "compile" } else { "eval" }, attack, r), || format!("{} ; {}", before.0, before.1), || format!("{} ; {}", after.0, after.1));
+                ctx.tag("sealed-writes:refused");
+            }
+        }
+    }
 }
